@@ -183,3 +183,11 @@ Definition updated_flag_stmt : Prop :=
   forall h st, run h init_state = Ok st ->
   forall now ok m st' rq, handle_msg now ok m st = Ok (st', rq) ->
     (exists s, obs st' s <> obs st s) -> updated st' = true.
+
+(* C13 for the device list: the ISO requests depend on elapsed time only.  Moving the clock origin of a history by c (32-bit clock,
+   so modulo 2^32: any origin, any number of wraps during the history) yields exactly the same requests (destination, requested PGN)
+   for every message, i.e. at the same times relative to the origin. *)
+Definition shift (c:Z) (h:list event) : list event :=
+  map (fun ev => match ev with (now, ok, m) => ((now + c) mod 4294967296, ok, m) end) h.
+Definition pacing_shift_stmt : Prop :=
+  forall h c, run_log (shift c h) init_state = run_log h init_state.
